@@ -483,7 +483,10 @@ func layoutWords(p *bo.PageBox) []string {
 	var walk func(b bo.Box)
 	walk = func(b bo.Box) {
 		if tb, ok := b.(*bo.TextBox); ok {
-			out = append(out, splitWords(string(tb.Text))...)
+			// (hidden text is laid out but is not rendered text: it is not drawn)
+			if tb.Style == nil || tb.Style.GetVisibility() == "visible" {
+				out = append(out, splitWords(string(tb.Text))...)
+			}
 		}
 		for _, c := range b.Box().Children {
 			walk(c)
